@@ -1,7 +1,7 @@
 """Per-property registry: Lean modules (obligations), correspondence streams, projections and
 direct oracles.  Each entry's `run(ctx)` performs the dynamic part of the check."""
 import json, os, re, shutil, subprocess, sys, time
-import vlib, gen_api
+import vlib, gen_api, gen_text, streams
 from vlib import Rng, hexs
 
 # ------------------------------------------------------------------ generic API correspondence
@@ -93,71 +93,68 @@ def proj_write(op, out):
 
 TRIVIAL = {'init', 'dump', 'wf', 'lookup_all', 'reset_world'}
 
-def api_correspondence(ctx, profiles, sessions, n_ops, project, oracle, what, stream_name='api'):
-    """Run `sessions` seeded histories per profile on implementation and model; compare the
-    projected outputs; evaluate the direct oracle on the implementation's outputs."""
+def correspondence(ctx, session_fns, project, oracle, what, stream_name, driver='drv_api.c', impl_env=None):
+    """Run each session (a callable (impl, rng, stats) driving the harness interactively) on the
+    implementation, replay the recorded ops on the model, compare the projected outputs and
+    evaluate the direct oracle on the implementation's outputs."""
     work = ctx['work']
-    exe, log = vlib.build_harness(os.path.join(work, 'h'), 'drv_api.c')
+    exe, log = vlib.build_harness(os.path.join(work, 'h'), driver)
     if not exe:
         ctx['violation']('harness-build', 'the harness no longer compiles against /repo', {'log': log[-3000:]}, False)
         return
-    rng = Rng(ctx['seed'] * 1000003 + hash_str(ctx['prop']))
+    rng = Rng(ctx['seed'] * 1000003 + hash_str(ctx['prop'] + stream_name))
     stats = {}
     total = 0
     distinct = set()
     samples = []
     n_sessions = 0
-    for profile in profiles:
-        for si in range(sessions):
-            srng = rng.fork()
-            scratch = os.path.join(work, 'scratch')
-            shutil.rmtree(scratch, ignore_errors=True)
-            impl = vlib.Impl(exe, scratch)
-            gen_api.session(impl, srng, n_ops, profile, stats)
-            rc, err = impl.close()
-            ops, iouts = impl.ops, impl.outs
-            n_sessions += 1
-            mouts, mrc, merr = vlib.run_model(ops)
-            total += len(ops)
-            for o, r in zip(ops, iouts):
-                if first_word(o) not in TRIVIAL and r != 'bad-op':
-                    distinct.add((o, r))
-            if len(samples) < 3:
-                k = min(len(ops), 12)
-                samples.append({'profile': profile, 'ops': ops[1:k], 'impl': iouts[1:k]})
-            # sanitizer / crash
-            if rc != 0 or impl.dead or 'ERROR: ' in err or 'runtime error' in err:
-                idx = len([x for x in iouts if x not in ('<dead>',)])
-                ctx['violation']('failing-input', 'the implementation crashed or a sanitizer fired (%s stream, profile %s)' % (stream_name, profile),
-                                 {'ops': ops[:idx + 1], 'stderr': err[-3000:], 'rc': rc}, True)
-                continue
-            # direct oracle on the implementation
-            bad = oracle(ops, iouts) if oracle else None
-            if bad is not None:
-                i, why = bad
-                mini = shrink(exe, work, ops[:i + 1], lambda o, io, mo: oracle(o, io) is not None)
-                ctx['violation']('failing-input', '%s: %s' % (what, why), {'ops': mini, 'impl_last': iouts[i]}, True)
-                continue
-            # correspondence
-            if len(mouts) != len(iouts):
-                ctx['violation']('broken-correspondence', 'the model driver stopped early (%d of %d lines)' % (len(mouts), len(iouts)),
-                                 {'ops': ops[:len(mouts) + 1], 'model_stderr': merr[-2000:]}, False)
-                continue
-            for i, (o, a, b) in enumerate(zip(ops, iouts, mouts)):
-                pa, pb = project(o, a), project(o, b)
-                if pa != pb:
-                    def still(o2, io2, mo2):
-                        return any(project(x, y) != project(x, z) for x, y, z in zip(o2, io2, mo2)) or len(io2) != len(mo2)
-                    mini = shrink(exe, work, ops[:i + 1], still)
-                    io2, _, _ = run_impl_batch(exe, os.path.join(work, 'scratch'), mini)
-                    mo2, _, _ = vlib.run_model(mini)
-                    ctx['violation']('failing-input', '%s: implementation and model (the proved specification) disagree on op %r' % (what, mini[-1] if mini else o),
-                                     {'ops': mini, 'impl': io2[-3:], 'model': mo2[-3:], 'stream': stream_name}, True)
-                    break
+    for fn in session_fns:
+        srng = rng.fork()
+        scratch = os.path.join(work, 'scratch')
+        shutil.rmtree(scratch, ignore_errors=True)
+        impl = vlib.Impl(exe, scratch, impl_env)
+        fn(impl, srng, stats)
+        rc, err = impl.close()
+        ops, iouts = impl.ops, impl.outs
+        n_sessions += 1
+        mouts, mrc, merr = vlib.run_model(ops)
+        total += len(ops)
+        for o, r in zip(ops, iouts):
+            if first_word(o) not in TRIVIAL and r != 'bad-op':
+                distinct.add((o, r))
+        if len(samples) < 3:
+            k = min(len(ops), 10)
+            samples.append({'stream': stream_name, 'ops': [x[:300] for x in ops[1:k]], 'impl': [x[:300] for x in iouts[1:k]]})
+        if rc != 0 or impl.dead or 'ERROR: ' in err or 'runtime error' in err:
+            idx = len([x for x in iouts if x not in ('<dead>',)])
+            ctx['violation']('failing-input', 'the implementation crashed, exited or a sanitizer fired (%s stream)' % stream_name,
+                             {'ops': ops[max(0, idx - 30):idx + 1], 'stderr': err[-3000:], 'rc': rc}, True)
+            continue
+        bad = oracle(ops, iouts) if oracle else None
+        if bad is not None:
+            i, why = bad
+            mini = shrink(exe, work, ops[:i + 1], lambda o, io, mo: oracle(o, io) is not None, impl_env=impl_env)
+            ctx['violation']('failing-input', '%s: %s' % (what, why), {'ops': mini, 'impl_last': iouts[i]}, True)
+            continue
+        if len(mouts) != len(iouts):
+            ctx['violation']('broken-correspondence', 'the model driver stopped early (%d of %d lines)' % (len(mouts), len(iouts)),
+                             {'ops': ops[max(0, len(mouts) - 5):len(mouts) + 1], 'model_stderr': merr[-2000:]}, False)
+            continue
+        for i, (o, a, b) in enumerate(zip(ops, iouts, mouts)):
+            pa, pb = project(o, a), project(o, b)
+            if pa != pb:
+                def still(o2, io2, mo2):
+                    return any(project(x, y) != project(x, z) for x, y, z in zip(o2, io2, mo2)) or len(io2) != len(mo2)
+                mini = shrink(exe, work, ops[:i + 1], still, impl_env=impl_env)
+                io2, _, _ = run_impl_batch(exe, os.path.join(work, 'scratch'), mini, impl_env)
+                mo2, _, _ = vlib.run_model(mini)
+                ctx['violation']('failing-input', '%s: implementation and model (the proved specification) disagree on op %r' % (what, (mini[-1] if mini else o)[:200]),
+                                 {'ops': mini, 'impl': io2[-3:], 'model': mo2[-3:], 'stream': stream_name}, True)
+                break
     cov = ctx['cov']
     cov['evaluations'] = cov.get('evaluations', 0) + total
     cov['distinct_nontrivial'] = cov.get('distinct_nontrivial', 0) + len(distinct)
-    cov['rule'] = ('seeded API histories generated interactively against the implementation (tools/gen_api.py); a case is one '
+    cov['rule'] = ('seeded operation streams generated interactively against the implementation (tools/gen_*.py); a case is one '
                    'operation with its result; distinct_nontrivial counts distinct (operation line, implementation result) pairs '
                    'excluding init/dump/oracle ops and out-of-contract addresses')
     cov.setdefault('distribution', {}).update({stream_name: dict(sorted(stats.items()))})
@@ -165,16 +162,23 @@ def api_correspondence(ctx, profiles, sessions, n_ops, project, oracle, what, st
     cov['samples'] = cov.get('samples', []) + samples
     cov['traces_validated_against_impl'] = cov.get('traces_validated_against_impl', 0) + n_sessions
 
+def api_correspondence(ctx, profiles, sessions, n_ops, project, oracle, what, stream_name='api'):
+    fns = []
+    for profile in profiles:
+        for _ in range(sessions):
+            fns.append(lambda impl, rng, stats, profile=profile: gen_api.session(impl, rng, n_ops, profile, stats))
+    correspondence(ctx, fns, project, oracle, what, stream_name)
+
 def hash_str(s):
     h = 0
     for c in s:
         h = (h * 131 + ord(c)) % 1000003
     return h
 
-def shrink(exe, work, ops, still_fails, budget=80):
+def shrink(exe, work, ops, still_fails, budget=80, impl_env=None):
     """greedy delta-debugging on the op list: drop chunks while the failure persists"""
     def fails(cand):
-        io, rc, err = run_impl_batch(exe, os.path.join(work, 'scratch-shrink'), cand)
+        io, rc, err = run_impl_batch(exe, os.path.join(work, 'scratch-shrink'), cand, impl_env)
         mo, _, _ = vlib.run_model(cand)
         if rc != 0 or 'ERROR: ' in err:
             return True
@@ -257,6 +261,36 @@ def run_C19(ctx):
     s, n = sizes(ctx, (5, 200), (30, 500))
     api_correspondence(ctx, ['write'], s, n, proj_write, None, 'C19 writer output')
 
+def proj_read(op, out):
+    w = first_word(op)
+    if w in ('read_string', 'read_stream', 'read_file'):
+        return out.split(' ')[0]
+    if w in ('err', 'dump', 'wf', 'write'):
+        return out
+    return None
+
+def run_C02(ctx):
+    L = 6 if ctx['tier'] == 'quick' else 8
+    seqs = gen_text.enumerate_prefixes(L)
+    expect = {}
+    chunk = 4000
+    fns = []
+    exps = []
+    for ov in (False, True):
+        for i in range(0, len(seqs), chunk):
+            e = {}
+            exps.append(e)
+            fns.append(streams.sess_c02(seqs[i:i + chunk], ov, e))
+    # each session has its own expectation table: run them one by one
+    for fn, e in zip(fns, exps):
+        correspondence(ctx, [fn], proj_read, streams.oracle_c02(e), 'C02 grammar conformance', 'tokens<=%d' % L)
+    ctx['cov']['exhaustive_token_sequences'] = {'max_len': L, 'sequences': len(seqs), 'with_overrides_off_and_on': True}
+    # random long valid texts and their mutations
+    rng = Rng(ctx['seed'] * 7919 + 2)
+    n = 150 if ctx['tier'] == 'quick' else 2000
+    texts = [gen_text.rand_valid_text(rng) for _ in range(n)]
+    correspondence(ctx, [streams.sess_texts(texts, ('string',), tag='valid')], proj_read, None, 'C02 grammar conformance', 'random-valid')
+
 COMMON_ASSUMPTIONS = [
     'NULL config_t*/config_setting_t*, dangling handles and non-NUL-terminated strings are out of contract',
     'ctype classification is that of the C/UTF-8 locales',
@@ -264,6 +298,7 @@ COMMON_ASSUMPTIONS = [
 ]
 
 REGISTRY = {
+    'C02': dict(modules=['LibconfigModel.Properties.C02'], run=run_C02, assumptions=COMMON_ASSUMPTIONS),
     'C04': dict(modules=['LibconfigModel.Properties.C04'], run=run_C04, assumptions=COMMON_ASSUMPTIONS),
     'C05': dict(modules=['LibconfigModel.Properties.C05'], run=run_C05, assumptions=COMMON_ASSUMPTIONS),
     'C06': dict(modules=['LibconfigModel.Properties.C06'], run=run_C06, assumptions=COMMON_ASSUMPTIONS),
